@@ -298,6 +298,10 @@ pub trait Property: Sync {
         vec![]
     }
     fn rule(&self) -> String;
+    /// may cases run on several threads at once? (false when a case needs process-global hooks)
+    fn parallel(&self) -> bool {
+        true
+    }
 }
 
 #[derive(Default, Serialize)]
@@ -446,7 +450,7 @@ pub fn run_property<P: Property>(p: &P, cfg: &RunCfg) -> anyhow::Result<RunRepor
     // 2. execute on the implementation, in parallel
     let n = named.len();
     let mut results: Vec<Option<Result<Vec<Line>, String>>> = (0..n).map(|_| None).collect();
-    let threads = cfg.threads.max(1);
+    let threads = if p.parallel() { cfg.threads.max(1) } else { 1 };
     let chunk = n.div_ceil(threads).max(1);
     std::thread::scope(|s| {
         for (ops_chunk, res_chunk) in named.chunks(chunk).zip(results.chunks_mut(chunk)) {
